@@ -229,15 +229,25 @@ func (c *ShipConnection) endHandshakeWithError(err error) {
 func (c *ShipConnection) setHandshakeTimer(timerType timeoutTimerType, duration time.Duration) {
 	c.stopHandshakeTimer()
 
-	c.setHandshakeTimerRunning(true)
-	c.setHandshakeTimerType(timerType)
+	// every timer gets its own stop channel, so a stop can neither get lost
+	// nor be consumed by an older timer
+	stopChan := make(chan struct{})
+
+	c.handshakeTimerMux.Lock()
+	c.handshakeTimerStopChan = stopChan
+	c.handshakeTimerRunning = true
+	c.handshakeTimerType = timerType
+	c.handshakeTimerMux.Unlock()
 
 	go func() {
 		select {
-		case <-c.handshakeTimerStopChan:
+		case <-stopChan:
 			return
 		case <-time.After(duration):
-			c.setHandshakeTimerRunning(false)
+			// only the most recent timer may report a timeout, and only if it wasn't stopped
+			if !c.expireHandshakeTimer(stopChan) {
+				return
+			}
 			c.handleState(true, nil)
 			return
 		}
@@ -246,15 +256,29 @@ func (c *ShipConnection) setHandshakeTimer(timerType timeoutTimerType, duration 
 
 // stop the handshake timer and close the channel
 func (c *ShipConnection) stopHandshakeTimer() {
-	if !c.getHandshakeTimerRunning() {
+	c.handshakeTimerMux.Lock()
+	defer c.handshakeTimerMux.Unlock()
+
+	if !c.handshakeTimerRunning {
 		return
 	}
 
-	select {
-	case c.handshakeTimerStopChan <- struct{}{}:
-	default:
+	close(c.handshakeTimerStopChan)
+	c.handshakeTimerRunning = false
+}
+
+// mark the timer using the provided stop channel as expired
+// returns false if this timer was stopped or replaced in the meantime
+func (c *ShipConnection) expireHandshakeTimer(stopChan chan struct{}) bool {
+	c.handshakeTimerMux.Lock()
+	defer c.handshakeTimerMux.Unlock()
+
+	if !c.handshakeTimerRunning || c.handshakeTimerStopChan != stopChan {
+		return false
 	}
-	c.setHandshakeTimerRunning(false)
+
+	c.handshakeTimerRunning = false
+	return true
 }
 
 func (c *ShipConnection) setHandshakeTimerRunning(value bool) {
